@@ -172,6 +172,19 @@ pub fn generate(tier: &str, seed: u64) -> Vec<Rec> {
         }
     }
     gen_vec(&mut rng, tier, &mut out);
+    // i128 accumulators, radix 1, a carry above 2^64 crossing more than 64 missing limbs (the i128 routine propagates
+    // through min(gap, 128) zero limbs, the i64 one through min(gap, 64))
+    for be in [3i128, 4] {
+        for (rsz, gap, sh) in [(4usize, 68i128, 70u32), (3, 100, 100), (2, 127, 120), (5, 65, 66), (1, 130, 125)] {
+            for code in [8201i64, 8202, 8203, 8204] {
+                let n = 4usize;
+                let off = -(rsz as i128 + gap);
+                let a: Vec<i128> = (0..n).map(|i| (if i % 2 == 0 { 1i128 } else { -1 }) << (sh - i as u32)).collect();
+                let res: Vec<i128> = (0..n * rsz).map(|_| rng.range(-1, 0) as i128).collect();
+                out.push(Rec::new(code, vec![be, n as i128, 1, rsz as i128, rsz as i128, 0, 1, 1, 1, 0, 1, 1, off], vec![res, a]));
+            }
+        }
+    }
     c08_enc::generate(tier, &mut rng, &mut out);
     out
 }
